@@ -9,3 +9,4 @@ mod c10;
 mod c11;
 mod c12;
 mod c07;
+mod c03;
